@@ -19,7 +19,7 @@ TRUSTED_BASE = ['io.TextIOWrapper/BytesIO capture streams and the formatter\'s p
 ASSUMPTIONS = ['tests write through sys.stdout / sys.stderr (objects looked up at write time), not through file descriptors',
                'the stream model (which token goes to which stream, in which order) is compared for in-process runs; for layers run in '
                'subprocesses (a child re-binds sys.stderr to its stdout by design) only the statement is evaluated, on what the parent prints']
-PHN = {'setUp': (0, 0), 'body': (1, 0), 'tearDown': (3, 0), 'after_redirect': (5, 0)}
+PHN = {'setUp': (0, 0), 'body': (1, 0), 'after_nested': (1, 0), 'tearDown': (3, 0), 'after_redirect': (5, 0)}
 KINDS = [{}, {'body': 'fail'}, {'body': 'error'}, {'deco_skip': True}, {'setUp': 'skip'}, {'body': 'skip'},
          {'xf': True, 'body': 'fail'}, {'xf': True}, {'subs': ['fail', 'ok', 'error']}, {'tearDown': 'error'},
          {'body': 'fail', 'tearDown': 'error'}, {'cleanups': ['error', 'ok']}, {'subs': ['skip', 'fail']}]
@@ -38,8 +38,13 @@ def add_writes(rng, tests, buffered=True):
         if buffered and T.get('subs') and not T.get('xf') and rng.random() < 0.5:
             T['redirect_sub'] = True
             phases.append('after_redirect')
+        if buffered and rng.random() < 0.08:
+            # the test runs the test runner itself (as the runner's own tests do), in-process and with --buffer, between two of
+            # its writes: what the outer test has written so far stays captured for the outer test
+            T['nested_run'] = True
+            phases.insert(2, 'after_nested')
         for ph in phases:
-            if rng.random() < 0.8:
+            if rng.random() < 0.8 or ph == 'after_nested' or (ph == 'body' and T.get('nested_run')):
                 # contextlib.redirect_stdout re-installs sys.stdout only: what follows it is written to stdout (the model has one switch)
                 stream = rng.choice(['stdout', 'stdout', 'stdout', 'print', 'stdout.buffer', 'stdout.badbytes'] + ([] if (T.get('redirect_sub') and ph not in ('setUp', 'body')) else ['stderr']))
                 text = 'TOK_%d_' % tok + rng.choice(['', '\n', ' more text\n'])
@@ -78,6 +83,8 @@ def generate(rng, tier, rep):
             kinds.append(T)
         cases.append(mk(rng, kinds, (['--buffer'] if rng.random() < 0.75 else []) + rng.choice([[], ['-v'], ['-vv']])))
     for c in cases:
+        if any(T.get('nested_run') for T in c['tests']):
+            rep.count('a test runs the runner in-process (nested --buffer run)')
         rep.count('buffer=%s' % ('--buffer' in c['options']))
         rep.count('tests=%d' % len(c['tests']))
     return cases
